@@ -618,6 +618,9 @@ class Exec:
     def ev_StringLiteral(self, n, st):
         return Opaque('string:' + n.get('value', ''))
 
+    def lv_StringLiteral(self, n, st):
+        return Opaque('string:' + n.get('value', ''))       # a literal decaying to const char*: the text is all that is kept
+
     def ev_ParenExpr(self, n, st):
         return self.ev(n['inner'][0], st)
 
